@@ -31,12 +31,15 @@ def parse_dir(d):
     """'skip:$s' / 'include:true' -> directive record"""
     if not d:
         return []
-    name, val = d.split(":")
-    if val.startswith("$"):
-        v = {"k": "var", "name": val[1:]}
-    else:
-        v = {"k": "bool", "v": val == "true"}
-    return [{"name": name, "val": v}]
+    out = []
+    for one in d.split(","):      # several directives on one selection: 'skip:false,include:$s'
+        name, val = one.split(":")
+        if val.startswith("$"):
+            v = {"k": "var", "name": val[1:]}
+        else:
+            v = {"k": "bool", "v": val == "true"}
+        out.append({"name": name, "val": v})
+    return out
 
 
 def tree_from_flat(flat, op_type="query"):
@@ -246,7 +249,12 @@ class DocGen:
     def dirs(self):
         if self.r.random() >= self.p_dir:
             return ""
-        return self.r.choice(["skip:$s", "include:$s", "skip:true", "skip:false", "include:true", "include:false"])
+        one = self.r.choice(["skip:$s", "include:$s", "skip:true", "skip:false", "include:true", "include:false"])
+        if self.r.random() < 0.3:
+            # both directives on one selection (in either order): included iff @skip is false AND @include is true
+            other = self.r.choice(["$s", "true", "false"])
+            return one + "," + ("include:" if one.startswith("skip") else "skip:") + other
+        return one
 
     def conds(self, t):
         pt = set(possible(self.ts, t))
@@ -441,6 +449,10 @@ def wrapping_docs():
         [f(1, "a"), f(2, "kids"), on(3, "A"), f(4, "colors"), f(4, "grid"), f(2, "ints"), f(2, "ints", "again")],
         [f(1, "entity"), f(2, "id"), on(2, "Node"), f(3, "peer"), on(4, "Entity"), f(5, "label"), on(2, "A"), f(3, "ints")],
         [f(1, "node"), on(2, "Entity"), on(3, "B"), f(4, "b"), on(3, "A"), f(4, "grid"), f(2, "__typename")],
+        # @skip and @include on the same selection, each order, each combination that decides differently
+        [dict(f(1, "a"), dir="skip:false,include:false"), f(2, "n"), dict(f(1, "n", "k2"), dir="include:true,skip:true"), dict(f(1, "n", "k3"), dir="include:true,skip:false"),
+         dict(f(1, "n", "k4"), dir="skip:true,include:true"), dict(f(1, "nn", "k5"), dir="skip:false,include:true"), dict(f(1, "nn", "k6"), dir="include:false,skip:false")],
+        [f(1, "node"), dict(on(2, "A"), dir="skip:false,include:false"), f(3, "n"), dict(on(2, "Node"), dir="include:true,skip:true"), f(3, "label"), dict(on(2, "B"), dir="include:true,skip:false"), f(3, "b"), f(2, "id")],
         # derive(SimpleObject) with a flattened part
         [f(1, "simple"), f(2, "slabel"), f(2, "sid"), f(2, "snn"), f(2, "sints"), f(2, "sb"), f(2, "se"), f(2, "sf"), f(2, "sn"), f(2, "__typename")],
         [f(1, "a"), f(2, "simple"), f(3, "sb", "x"), f(3, "sid"), on(3, "S"), f(4, "sints"), f(4, "slabel"), f(2, "simple", "again"), f(3, "snn"), f(2, "n")],
